@@ -13,10 +13,12 @@
      recorded iff the referrer is present, has a reference on that out-port to that in-port denoting the target, and
      the target is present and of the same namespace - nothing stale, nothing missing; names resolve through the
      name map exactly to the present symbol of that namespace with that name (C06_names_exact).
-   The converse for the port wiring itself (every such reference is also LINKED when both nodes offer the ports) is
-   compared with the implementation by the correspondence run (exact wiring sets after every operation). *)
+   - C06_wiring_exact: along the same histories (with every inserted symbol a new instance; lifecycle flows may fail)
+     the port links are EXACTLY the resolved references of the present symbols between ports their nodes offer: every
+     such reference is linked, and nothing else is.
+   The correspondence run compares the wiring (by pointer identity of ports) with the model after every operation. *)
 From Coq Require Import List NArith ZArith Bool.
-From Uf Require Import Table.Table Table.TableProofs Table.RefsProofs.
+From Uf Require Import Table.Table Table.TableProofs Table.RefsProofs Table.LinksProofs.
 Import ListNotations.
 
 Theorem C06_one_per_id : forall ops, fresh_ops [] ops ->
@@ -82,3 +84,11 @@ Example C06_ex_wf :
   let a' := mksym 3 1 0 (Some 6) [] true [1; 2] [0] None in
   wf_from t_init [TInsert b; TInsert a; TInsert c; TInsert a'; TFree 3].
 Proof. cbv zeta. apply wf_from_b_sound. vm_compute. reflexivity. Qed.
+
+Theorem C06_wiring_exact : forall ops, wf3_from t_init ops ->
+  forall a o c i, In (a, o, c, i) (links (t_run ops)) <->
+    exists sr tt np p, In sr (syms (t_run ops)) /\ In tt (syms (t_run ops)) /\ In np (s_ports sr) /\ In p (snd np) /\
+      RefP (s_ns sr) p tt /\ s_ns tt = s_ns sr /\ lcond sr tt (fst np) (pr_port p) = true /\
+      (a, o, c, i) = (s_inst sr, fst np, s_inst tt, pr_port p).
+Proof. intros ops W a o c i. exact (hl_links _ (t_run_HL ops W) (a, o, c, i)). Qed.
+Print Assumptions C06_wiring_exact.
